@@ -2,7 +2,7 @@
 CHECK = {
     "pkg": ".", "files": ["root/c38_test.go"], "run": "^TestC38",
     "quick": {"scale": 1, "shards": 1, "timeout": 600},
-    "thorough": {"scale": 6, "shards": 6, "timeout": 1500},
+    "thorough": {"scale": 20, "shards": 8, "timeout": 1500},
     "rule": "rapid draws of allow-list maps (0..7 CIDR keys over IPv4 / IPv6 / IPv4-mapped spellings, all prefix lengths, "
             "canonical or with host bits set, per-family value policy uniform-allow / uniform-deny / mixed, optional explicit "
             "/0 defaults, yaml boolean spellings, injected malformed keys and values), remote_allow_list + "
